@@ -87,19 +87,6 @@ example : sumR 2 (fun q => Hal.negMul ([[1, 2], [3, 4]].getD q []) ([[7, 1], [0,
     = polyAdd (Hal.negMul [0, 1] (sumR 2 (fun q => Hal.negMul ([[1, 2], [3, 4]].getD q []) ([[1, -6], [4, 0]].getD q [])) 2))
         (sumR 2 (fun q => Hal.negMul ([[1, 2], [3, 4]].getD q []) ([[1, 0], [0, 1]].getD q [])) 2) := by decide
 
-theorem polyAdd_polySub_cancel (t f : Poly) (h : t.length = f.length) : polyAdd (polySub t f) f = t := by
-  unfold polyAdd polySub
-  induction t generalizing f with
-  | nil => cases f <;> simp_all
-  | cons x xs ih =>
-    cases f with
-    | nil => simp at h
-    | cons y ys =>
-      simp only [List.zipWith_cons_cons]
-      rw [ih ys (by simpa using h)]
-      congr 1
-      omega
-
 /-- **`cmux_selects`.**  CMux computes `(t − f) ⊡ ggsw + f`.  Let `D = Σ_q d_q ⋆ w_q` be the gadget
 recomposition of the digits of `t − f`, assumed to be `T − F` (`T`, `F`: the phases of `t`
 — less the dropped limbs — and of `f` at this limb).  If the GGSW rows have phase
